@@ -174,6 +174,11 @@ def build_graph(L, k, mask_arr, t):
 
 def body_e2e(e, L, cfg):
     c, k, t = cfg["config"], cfg["k"], cfg["t"]
+    # history: a sibling filter (same window, run limit, GC range; other motifs) is screened first in the same process
+    try:
+        L.find_vertices(k, L.LocalBioFilter(observed_length=k, max_homopolymer_runs=c["runs"], gc_range=c["gc"], undesired_motifs=None if c["motifs"] else ["T"]))
+    except ValueError:
+        pass
     f = L.LocalBioFilter(observed_length=k, max_homopolymer_runs=c["runs"], gc_range=c["gc"], undesired_motifs=c["motifs"])
     try:
         mask = L.find_vertices(k, f)
